@@ -55,6 +55,7 @@ fn main() {
         "C11" => c11::run(seed, tier, &mut out),
         "C11T" => c11::run_trackers(seed, tier, &mut out),
         "C11R" => c11::run_render(seed, tier, &mut out),
+        "C11C" => c11::run_concurrent(seed, tier, &mut out),
         "C06" => c06::run(seed, tier, &mut out),
         "C01" => bar::run(seed, tier, &mut out, true, false),
         "C19" => bar::run(seed, tier, &mut out, false, false),
